@@ -1361,12 +1361,13 @@ func SelectExpr(query *Query, current Map, expr *sqlparser.SelectExprs, opts ...
 }
 
 func SubqueryExpr(query *Query, current Map, expr *sqlparser.Subquery, opts ...ExprOption) (any, error) {
-	// Backward Navigation
+	// Backward Navigation: the marker goes into a shallow copy of the row so
+	// that the caller's row is never modified, whether or not the query fails
+	current = maps.Clone(current)
+	if current == nil {
+		current = make(Map)
+	}
 	current["<-"] = query.data
-	query.postProcessors = append(query.postProcessors, func() error {
-		delete(current, "<-")
-		return nil
-	})
 	subQuery, err := Prepare(current, expr.Select, query.options)
 	if err != nil {
 		return nil, err
